@@ -140,6 +140,28 @@ def fun_symbols(f):
     return out
 
 
+def top_fun_symbols(f):
+    """like fun_symbols but without descending into the arguments of uninterpreted applications"""
+    out = set()
+    seen = set()
+    stack = [f]
+    while stack:
+        x = stack.pop()
+        i = x.get_id()
+        if i in seen:
+            continue
+        seen.add(i)
+        if z3.is_quantifier(x):
+            stack.append(x.body())
+            continue
+        if z3.is_app(x):
+            if x.decl().kind() == z3.Z3_OP_UNINTERPRETED and x.num_args() > 0:
+                out.add(x.decl().name())
+                continue
+            stack.extend(x.children())
+    return out
+
+
 def def_head(f):
     """F for a hypothesis of the form F(args) == rhs with F uninterpreted of arity > 0, else None"""
     if z3.is_eq(f):
@@ -313,11 +335,12 @@ def solve_one(task):
     gsyms, gfuns = symbols(goal), fun_symbols(goal)
     relA = [f for f, n in zip(hyps, nl) if (not n) or (symbols(f) & gsyms)]
     relB = [f for f, n in zip(hyps, nl) if (not n) or (def_head(f) in gfuns)]
-    F1 = set(gfuns)
+    tfuns = top_fun_symbols(goal)
+    F1 = set(tfuns)
     for f in hyps:
-        if def_head(f) in gfuns:
-            F1 |= fun_symbols(f)
-    relF = [f for f, q, n in zip(hyps, quant, nl) if not q and (fun_symbols(f) & F1) and ((not n) or def_head(f) in gfuns)]
+        if def_head(f) in tfuns:
+            F1 |= top_fun_symbols(f)
+    relF = [f for f, q, n in zip(hyps, quant, nl) if not q and (top_fun_symbols(f) & F1) and ((not n) or def_head(f) in tfuns)]
     qf_ = lambda hs: [f for f in hs if not has_quant(f)]      # noqa: E731
     cand = [None]
     why = [None]
@@ -366,6 +389,8 @@ def solve_one(task):
         stages.append(lambda: plain(qf, min(timeout, 3000), 'z3-qfslice', model=True))
     if 'bv_to_int' in smt2 or 'bv2int' in smt2 or 'bv2nat' in smt2:
         stages.append(lambda: abstracted(qf, min(timeout, 5000), 'z3-qfslice-abs', bv=True))
+    if has_nl and len(relA) < len(hyps):
+        stages.append(lambda: plain(qf_(relA), 4000, 'z3-relslice'))
     if goal_nl and F1 and len(relF) < len(hyps):
         stages.append(lambda: plain(relF, 4000, 'z3-funslice'))
         stages.append(lambda: abstracted(relF, 12000, 'z3-funslice-boolabs', atoms=True))
@@ -385,14 +410,18 @@ def solve_one(task):
     stages.append(lambda: plain(hyps, timeout, 'z3', model=True, sd=seed + 17))
     if has_q:
         stages.append(lambda: plain(qf, timeout, 'z3-qfslice', model=True, sd=seed + 5))
-    for st in stages:
+    trace = []
+    for k, st in enumerate(stages):
+        t1 = time.time()
         r = st()
+        trace.append((k, round(time.time() - t1, 2), None if r is None else r.get('backend')))
         if r is not None:
+            r['trace'] = trace
             return r
     if task.get('use_cvc5', True):
         if run_cvc5(smt2, timeout) == 'unsat':
             return dict(name=name, status='unsat', backend='cvc5', time=time.time() - t0)
-    return dict(name=name, status='unknown', backend='z3+cvc5', time=time.time() - t0, candidate=cand[0], detail=why[0])
+    return dict(name=name, status='unknown', backend='z3+cvc5', time=time.time() - t0, candidate=cand[0], detail=why[0], trace=trace)
 
 
 def run_cvc5(smt2, timeout_ms):
